@@ -38,7 +38,9 @@ def run_groups(rep, wd, binpath, progs, specs, groups, label, law="equal", only_
             why = "; ".join("%s -> %s" % (grp["members"][i]["argv"], classes[i]) for i in range(n) if classes[i].startswith("violation"))
         else:
             raise ValueError(law)
-        if holds:
+        if any(o[0] == "skipped" for o in outs):
+            v = "skipped"
+        elif holds:
             v = "ok"
         elif anyuncl:
             v = "unclaimed"
@@ -51,7 +53,7 @@ def run_groups(rep, wd, binpath, progs, specs, groups, label, law="equal", only_
 
 
 def fmt(o):
-    if o[0] in ("dead", "panic"):
+    if o[0] in ("dead", "panic", "skipped"):
         return "%s(%s)" % o
     return "%s %s" % ("ran" if o[0] else "rejected", sorted((k, list(v)) for k, v in o[1]))
 
